@@ -48,12 +48,12 @@ type rec struct {
 }
 
 func run(c *eng.Ctx) error {
-	nMem := c.N(150, 2500)
-	nConc := c.N(60, 900)
-	nWT := c.N(60, 700)
+	nMem := c.N(150, 1200)
+	nConc := c.N(60, 500)
+	nWT := c.N(60, 400)
 	nF13 := 2
-	nLruFast := c.N(80, 1200)
-	nLruSlow := c.N(14, 60)
+	nLruFast := c.N(80, 600)
+	nLruSlow := c.N(14, 40)
 	total := nMem + nConc + nWT + nLruFast + nLruSlow + nF13
 
 	type slowJob struct {
